@@ -2,7 +2,8 @@
     list, and per participant the publishers / subscribers / topics / content-filtered topics / writers / readers
     with the handle counters exactly as `dds/src/dcps/dcps_domain_participant/{participant_entity.rs,
     participant_methods.rs, publisher_methods.rs, subscriber_methods.rs, writer_methods.rs, data_writer_entity.rs}`
-    and `dds/src/dcps/{dcps_participant_factory.rs, dcps_mail_handler.rs}` keep them (bugs included).
+    and `dds/src/dcps/{dcps_participant_factory.rs, dcps_mail_handler.rs}` keep them — AS PATCHED by fixes/D40.patch,
+    fixes/D-tree-1.patch and fixes/D-tree-2.patch (the code before the patches is `Model/TreeOld.lean`).
 
     Representation choices (all behaviour-preserving, see notes/tree.md):
     * the nested `Vec`s are FLAT lists; membership of a child in its parent's `Vec` is the pair (`part`, `pub`/`sub`)
@@ -252,6 +253,9 @@ def notTopicOfPart (u : Nat) (x : Topic) : Bool := !(x.part == u)
 def notWriterOfPart (u : Nat) (x : Writer) : Bool := !(x.part == u)
 def notReaderOfPart (u : Nat) (x : Reader) : Bool := !(x.part == u)
 def notTopicN (u : Nat) (n : String) (t : Topic) : Bool := !(t.part == u && t.name == n)
+def notCftN (u : Nat) (n : String) (t : Cft) : Bool := !(t.part == u && t.name == n)
+def notCftOfPart (u : Nat) (x : Cft) : Bool := !(x.part == u)
+def cftRefersTo (u : Nat) (n : String) (x : Cft) : Bool := x.part == u && x.related == n
 
 /-- `BUILT_IN_TOPIC_NAME_LIST` (participant_entity.rs:213) -/
 def builtinTopicNames : List String :=
@@ -354,12 +358,15 @@ inductive Op where
 /-- the worker panicked while handling the mail -/
 def die (s : St) : St × Res := ({ s with dead := true }, .panic)
 
-/-- dcps_participant_factory.rs:40 + domain_participant_factory.rs:374 (`fetch_add` wraps, never panics) -/
+/-- dcps_participant_factory.rs:40 + domain_participant_factory.rs:374 (fixes/D40: `fetch_update(checked_add)`,
+    the creation is refused before the transport or the worker see it) -/
 def createPart (s : St) (auto : Bool) : St × Res :=
   let uid := s.nextPart
-  ({ s with nextPart := s.nextPart + 1
-            parts := s.parts ++ [{ uid := uid, enabled := s.autoenable, autoenable := auto }] },
-   .handle (partHandle uid))
+  if overflows uid U32 then (s, .err .outOfResources)
+  else
+    ({ s with nextPart := s.nextPart + 1
+              parts := s.parts ++ [{ uid := uid, enabled := s.autoenable, autoenable := auto }] },
+     .handle (partHandle uid))
 
 /-- dcps_participant_factory.rs:80 -/
 def deletePart (s : St) (ph : Nat) : St × Res :=
@@ -375,7 +382,7 @@ def createPub (s : St) (ph : Nat) (auto : Bool) : St × Res :=
   | none => (s, .err .alreadyDeleted)                         -- dcps_mail_handler.rs:73
   | some p =>
     let n := s.pubEver p.uid
-    if s.profile == .debug && overflows n U8 then die s        -- participant_methods.rs:70 `publisher_counter += 1`
+    if overflows n U8 then (s, .err .outOfResources)           -- participant_methods.rs:70 `checked_add` (fixes/D40)
     else
       let x : Pub := { part := p.uid, uid := n, enabled := p.enabled && p.autoenable, autoenable := auto }
       ({ s with pubEver := setTo s.pubEver p.uid (n + 1), pubs := s.pubs ++ [x] }, .handle (pubHandle x))
@@ -398,7 +405,7 @@ def createSub (s : St) (ph : Nat) (auto : Bool) : St × Res :=
   | none => (s, .err .alreadyDeleted)
   | some p =>
     let n := s.subEver p.uid
-    if s.profile == .debug && overflows n U8 then die s        -- :160 `subscriber_counter += 1`
+    if overflows n U8 then (s, .err .outOfResources)           -- :160 `checked_add` (fixes/D40)
     else
       let x : Sub := { part := p.uid, uid := n, enabled := p.enabled && p.autoenable, autoenable := auto }
       ({ s with subEver := setTo s.subEver p.uid (n + 1), subs := s.subs ++ [x] }, .handle (subHandle x))
@@ -424,7 +431,7 @@ def createTopic (s : St) (ph : Nat) (name : String) (keyed : Bool) : St × Res :
     else if s.topics.any (isTopicN p.uid name) then (s, .err .preconditionNotMet)  -- :236
     else
       let n := s.topicEver p.uid
-      if s.profile == .debug && overflows n U16 then die s      -- :272 `topic_counter += 1`
+      if overflows n U16 then (s, .err .outOfResources)         -- :272 `checked_add` (fixes/D40)
       else
         let x : Topic := { part := p.uid, uid := n, name := name, keyed := keyed,
                            enabled := p.enabled && p.autoenable }   -- :289 enable_topic
@@ -442,6 +449,8 @@ def deleteTopic (s : St) (via : Nat) (r : TopicRef) : St × Res :=
       | some _ =>
         if s.writers.any (writerUsesTopic p.uid r.name) then (s, .err .preconditionNotMet)       -- :327
         else if s.readers.any (readerUsesTopic p.uid r.name) then (s, .err .preconditionNotMet)  -- :337
+        -- fixes/D-tree-2: a content-filtered topic (and with it every reader created on it) refers to the topic
+        else if s.cfts.any (cftRefersTo p.uid r.name) then (s, .err .preconditionNotMet)
         else ({ s with topics := s.topics.filter (notTopicN p.uid r.name) }, .ok)                -- :347 retain
 
 /-- participant_methods.rs:355; the mail goes to the related topic's participant (domain_participant.rs:236) -/
@@ -452,15 +461,19 @@ def createCft (s : St) (r : TopicRef) (name : String) : St × Res :=
     if !(s.topics.any (isTopicN p.uid r.name)) then (s, .err .preconditionNotMet)   -- :363
     else
       let n := s.topicEver p.uid
-      if s.profile == .debug && overflows n U16 then die s      -- :392
+      if overflows n U16 then (s, .err .outOfResources)         -- :392 `checked_add` (fixes/D40)
       else ({ s with topicEver := setTo s.topicEver p.uid (n + 1)
                      cfts := s.cfts ++ [{ part := p.uid, name := name, related := r.name }] }, .ok)
 
-/-- participant_methods.rs:408: does nothing -/
-def deleteCft (s : St) (ph : Nat) (_name : String) : St × Res :=
+/-- participant_methods.rs:408 (fixes/D-tree-1): unknown name → AlreadyDeleted; still used by a reader →
+    PreconditionNotMet; otherwise every content-filtered topic of that name goes (`retain`) -/
+def deleteCft (s : St) (ph : Nat) (name : String) : St × Res :=
   match findPart s ph with
   | none => (s, .err .alreadyDeleted)
-  | some _ => (s, .ok)
+  | some p =>
+    if !(s.cfts.any (isCftN p.uid name)) then (s, .err .alreadyDeleted)
+    else if s.readers.any (readerUsesTopic p.uid name) then (s, .err .preconditionNotMet)
+    else ({ s with cfts := s.cfts.filter (notCftN p.uid name) }, .ok)
 
 /-- publisher_methods.rs:29 -/
 def createWriter (s : St) (r : GroupRef) (topic : String) (maxInst : Option Nat) (consistent : Bool) : St × Res :=
@@ -474,7 +487,7 @@ def createWriter (s : St) (r : GroupRef) (topic : String) (maxInst : Option Nat)
       | none => (s, .err .alreadyDeleted)                      -- :55
       | some x =>
         let n := s.wEver p.uid
-        if s.profile == .debug && overflows n U16 then die s    -- :90 `writer_counter += 1`
+        if overflows n U16 then (s, .err .outOfResources)       -- :90 `checked_add` (fixes/D40)
         else
           let s1 := { s with wEver := setTo s.wEver p.uid (n + 1) }
           if !consistent then (s1, .err .inconsistentPolicy)   -- :98 AFTER the counter moved
@@ -514,7 +527,7 @@ def createReader (s : St) (r : GroupRef) (topic : String) (consistent : Bool) : 
         if !consistent then (s, .err .inconsistentPolicy)      -- :87 BEFORE the counter moves
         else
           let n := s.rEver p.uid
-          if s.profile == .debug && overflows n U16 then die s  -- :122 `reader_counter += 1`
+          if overflows n U16 then (s, .err .outOfResources)     -- :122 `checked_add` (fixes/D40)
           else
             let rd : Reader := { part := p.uid, sub := x.uid, uid := n, keyed := t.keyed, topic := topic,
                                  enabled := x.enabled && x.autoenable }        -- :146
@@ -532,8 +545,8 @@ def deleteReader (s : St) (via : GroupRef) (w : EndRef) : St × Res :=
       | none => (s, .err .alreadyDeleted)
       | some _ => ({ s with readers := s.readers.eraseP (isReaderE p.uid x.uid w.ent) }, .ok)
 
-/-- participant_methods.rs:508: publishers+writers, subscribers+readers, user topics go; the
-    content-filtered topics STAY (nothing ever removes one) -/
+/-- participant_methods.rs:508: publishers+writers, subscribers+readers, user topics and (fixes/D-tree-1) the
+    content-filtered topics go -/
 def deleteContained (s : St) (ph : Nat) : St × Res :=
   match findPart s ph with
   | none => (s, .err .alreadyDeleted)
@@ -542,7 +555,8 @@ def deleteContained (s : St) (ph : Nat) : St × Res :=
               writers := s.writers.filter (notWriterOfPart p.uid)
               subs := s.subs.filter (notSubOfPart p.uid)
               readers := s.readers.filter (notReaderOfPart p.uid)
-              topics := s.topics.filter (notTopicOfPart p.uid) }, .ok)
+              topics := s.topics.filter (notTopicOfPart p.uid)
+              cfts := s.cfts.filter (notCftOfPart p.uid) }, .ok)
 
 def enableTopicsOf (u : Nat) (t : Topic) : Topic := if t.part == u then { t with enabled := true } else t
 def setPartEnabled (p : Part) : Part := { p with enabled := true }
